@@ -27,7 +27,7 @@ def run_case(case) -> CaseResult:
     res = CaseResult()
     rng = random.Random(case['seed'])
     for i in range(case['n']):
-        run_history_case(rng, res, WANT, OPTS)
+        run_history_case(rng, res, WANT, OPTS, name_mode=rng.random() < 0.2)      # (name mode: records live beside results named after configs)
         if len(res.violations) > 3:
             break
     return res
